@@ -21,6 +21,8 @@ func genCookie(r *lib.Rng) []byte {
 		return r.Bytes(r.Intn(300))
 	case 4:
 		return r.Bytes(600 + r.Intn(297)) // long but usable: eight of them span several reads
+	case 5:
+		return r.Bytes(129 + r.Intn(768)) // any usable length above that of the project's own cookies
 	default:
 		return r.Bytes(100 + 4*r.Intn(8)) // the size of real cookies
 	}
